@@ -461,6 +461,150 @@ func govDirected(w *sim.World, out *c.Out, r *c.Rng) {
 	}
 }
 
+// ---------------------------------------------------------------- c05.lots
+
+var penaltyPool = []string{"0.0", "0.05", "0.05", "0.025", "0.075", "0.1", "0.13", "0.25", "0.333333333333333333", "0.5", "0.5",
+	"0.999999999999999999", "1.0", "0.000000000000000001"}
+
+// randLotParams draws the two parameters CreateAuctionsFromDeposit works with: the liquidation penalty (round
+// numbers, one ulp, one minus one ulp, random mantissas: the per-lot penalty round-half-even(debt_i · penalty) of
+// neighbouring debts dpa / dpa+1 differs for a fraction ≈ penalty of the debts) and the auction size (the default,
+// fractions of it — many lots per deposit —, sizes that do not divide round deposits, and a size no deposit reaches).
+func randLotParams(r *c.Rng, cp *cdptypes.CollateralParam, ty int) {
+	cp.LiquidationPenalty = sdk.MustNewDecFromStr(c.Pick(r, penaltyPool))
+	if r.Chance(30) {
+		cp.LiquidationPenalty = decM(r.BigBelow(new(big.Int).Add(P18, bi(1))))
+	}
+	base := sim.AuctionSize(sim.Types[ty]).BigInt()
+	switch r.Intn(8) {
+	case 0:
+		base = new(big.Int).Quo(base, bi(20))
+	case 1:
+		base = new(big.Int).Add(new(big.Int).Quo(base, bi(3)), bi(1))
+	case 2:
+		base = new(big.Int).Quo(base, bi(7))
+	case 3:
+		base = new(big.Int).Mul(base, bi(1000))
+	case 4:
+		lo := new(big.Int).Add(new(big.Int).Quo(base, bi(40)), bi(1))
+		base = new(big.Int).Add(lo, r.BigBelow(new(big.Int).Sub(base, lo)))
+	}
+	cp.AuctionSize = sdkmath.NewIntFromBigInt(base)
+}
+
+// lotsSeq: a short directed-random history whose point is the split of a seizure into auctions: one or two CDPs
+// whose deposits (one to four depositors) are whole multiples of the auction size, one unit more / less, equal to each
+// other, or arbitrary; a debt that does not divide evenly over the lots; interest accrues; the prices crash and the
+// positions are seized by the block liquidator or — with the block liquidator out of the way — by keeper messages
+// (reward taken out of one deposit first).  Every step is also an ordinary c05.op case.
+func lotsSeq(w *sim.World, out *c.Out, no int, r *c.Rng) {
+	p := sim.DefaultParams()
+	ty := r.Intn(sim.NBase)
+	t := sim.Types[ty]
+	cp := &p.CollateralParams[ty]
+	randLotParams(r, cp, ty)
+	cp.KeeperRewardPercentage = sdk.MustNewDecFromStr(c.Pick(r, []string{"0.0", "0.01", "0.01", "0.05", "0.005", "0.3"}))
+	if r.Chance(40) {
+		cp.StabilityFee = sdk.OneDec()
+	}
+	viaKeeper := r.Chance(40)
+	if viaKeeper {
+		p.LiquidationBlockInterval = 1000003 // the begin blocker never liquidates at the heights of this history
+	}
+	s := w.NewSeq(out, "c05.op", no, r, p)
+	A := cp.AuctionSize.BigInt()
+	price := new(big.Int).Mul(bi(2), P18)
+	L := cp.LiquidationRatio.BigInt()
+	floor := p.DebtParam.DebtFloor.BigInt()
+	amount := func(maxLots int64) *big.Int {
+		k := r.Range(0, maxLots)
+		x := new(big.Int).Mul(bi(k), A)
+		switch r.Intn(6) {
+		case 0: // exact multiple
+		case 1:
+			x.Add(x, bi(1))
+		case 2:
+			x.Sub(x, bi(1))
+		case 3:
+			x.Add(x, new(big.Int).Quo(A, bi(2)))
+		default:
+			x.Add(x, r.BigBelow(A))
+		}
+		if x.Sign() <= 0 {
+			x = new(big.Int).Add(A, bi(r.Range(-1, 1)))
+		}
+		return x
+	}
+	nCdps := 1
+	if r.Chance(35) {
+		nCdps = 2
+	}
+	var owners []int
+	for i := 0; i < nCdps; i++ {
+		owner := 3 + i
+		col := amount(7)
+		// enough collateral for the debt floor at the ratio (more whole lots, bounded)
+		need := new(big.Int).Mul(floor, L)
+		need.Mul(need, sim.Pow10(t.CF))
+		need.Quo(need, new(big.Int).Mul(price, sim.Pow10(6)))
+		need.Add(need, bi(2))
+		for n := 0; col.Cmp(need) < 0 && n < 400; n++ {
+			col.Add(col, A)
+		}
+		if col.Cmp(need) < 0 {
+			col = need
+		}
+		if bal := s.Pre().Bal[owner][t.DenomID]; col.Cmp(bal) > 0 {
+			col = new(big.Int).Set(bal)
+		}
+		md := maxDebt(col, t.CF, price, L)
+		if md.Cmp(floor) < 0 {
+			continue
+		}
+		debt := new(big.Int).Add(floor, r.BigBelow(new(big.Int).Add(new(big.Int).Sub(md, floor), bi(1))))
+		if r.Chance(30) {
+			debt = md
+		}
+		if cls, _ := s.Create(owner, ty, col, t.DenomID, debt, 0, "lots"); cls != kapp.OK {
+			continue
+		}
+		owners = append(owners, owner)
+		first := col
+		for d, nd := 0, r.Intn(4); d < nd; d++ {
+			dep := 3 + r.Intn(sim.NUsers)
+			amt := amount(4)
+			if r.Chance(25) {
+				amt = new(big.Int).Set(first) // equal deposits: equal rounded shares (former F2)
+			}
+			if bal := s.Pre().Bal[dep][t.DenomID]; amt.Cmp(bal) > 0 {
+				continue
+			}
+			s.Deposit(owner, dep, ty, amt, t.DenomID, "lots")
+		}
+		if r.Chance(50) { // draw against the added collateral: the debt no longer comes from one round draw
+			for _, cd := range s.Pre().Cdps {
+				if cd.Owner == owner && cd.Ty == ty {
+					room := new(big.Int).Sub(maxDebt(cd.Coll, t.CF, price, L), new(big.Int).Add(cd.Prin, cd.Fees))
+					if room.Sign() > 0 {
+						s.Draw(owner, ty, new(big.Int).Add(r.BigBelow(room), bi(1)), 0, "lots")
+					}
+				}
+			}
+		}
+	}
+	s.NextBlock(c.Pick(r, []int64{1, 60, 3600, 86400, 86400 * 30}), "lots-accrue")
+	crash := sdk.MustNewDecFromStr(c.Pick(r, []string{"0.02", "0.5", "0.000001", "1.0"}))
+	s.PostPrice(sim.MarketID(cp.SpotMarketID), crash, false)
+	s.PostPrice(sim.MarketID(cp.LiquidationMarketID), crash, false)
+	s.NextBlock(c.Pick(r, []int64{1, 5, 3600}), "lots-crash")
+	if viaKeeper {
+		for _, o := range owners {
+			s.Liquidate(3+r.Intn(sim.NUsers), o, ty, "lots")
+		}
+	}
+	s.NextBlock(1, "lots-after")
+}
+
 func main() {
 	out := c.NewOut(c.OutPath())
 	defer out.Close()
@@ -468,6 +612,7 @@ func main() {
 	nPure := c.Budget(6000, 200000)
 	nBlock := c.Budget(3000, 80000)
 	n := c.Budget(100, 1200)
+	nLots := c.Budget(160, 3000)
 	nops := 50
 	if c.Tier() == "thorough" {
 		nops = 100
@@ -475,18 +620,27 @@ func main() {
 	workers := c.Workers()
 	// the pure streams are split into `workers` chunks that run as sequences of their own
 	chunks := workers * 2
-	kapp.RunSeqs(n+2*chunks, workers, r, sim.NewWorldBarrier(workers), func(w *sim.World, seq int, r *c.Rng) {
+	kapp.RunSeqs(n+2*chunks+nLots, workers, r, sim.NewWorldBarrier(workers), func(w *sim.World, seq int, r *c.Rng) {
 		switch {
 		case seq < chunks:
 			pureCases(w, out, r, nPure/chunks+1)
 		case seq < 2*chunks:
 			blockCases(w, out, r, nBlock/chunks+1)
+		case seq >= n+2*chunks:
+			lotsSeq(w, out, seq, r)
 		default:
 			if seq == 2*chunks {
 				directed(w, out, c.NewRng(c.Seed()))
 				govDirected(w, out, c.NewRng(c.Seed()))
 			}
-			s := w.NewSeq(out, "c05.op", seq, r, sim.RandomParams(r))
+			rp := sim.RandomParams(r)
+			lr := r.Fork(7705) // (a stream of its own: the histories themselves are the ones of the earlier rounds)
+			for i := range rp.CollateralParams {
+				if lr.Chance(60) {
+					randLotParams(lr, &rp.CollateralParams[i], sim.TypeID(rp.CollateralParams[i].Type))
+				}
+			}
+			s := w.NewSeq(out, "c05.op", seq, r, rp)
 			if seq%4 != 0 { // three histories in four see governance parameter changes at block boundaries
 				s.GovPct = 35
 			}
